@@ -841,6 +841,36 @@ class _Ctx:
 VFS = VirtualFS()
 
 
+def sh_range(*a):
+    """range() with a symbolic bound: the feasible values are enumerated (forks; exact)"""
+    if any(isinstance(x, SInt) for x in a):
+        ex = core.cur()
+        a = [ex.concretize(x, limit=64) if isinstance(x, SInt) else x for x in a]
+    return builtins.range(*a)
+
+
+def sh_min(*a, **k):
+    if len(a) == 2 and not k and any(isinstance(x, SInt) for x in a):
+        return a[0] if (a[0] <= a[1]) else a[1]
+    return builtins.min(*a, **k)
+
+
+def sh_max(*a, **k):
+    if len(a) == 2 and not k and any(isinstance(x, SInt) for x in a):
+        return a[0] if (a[0] >= a[1]) else a[1]
+    return builtins.max(*a, **k)
+
+
+def sh_abs(x):
+    if isinstance(x, SInt):
+        return x if (x >= 0) else -x
+    return builtins.abs(x)
+
+
+def sh_bool(x=False):
+    return True if x else False
+
+
 SHADOWS = {
     'len': sh_len,
     'str': StrLike,
@@ -852,4 +882,8 @@ SHADOWS = {
     '__vgetitem__': sh_getitem,
     '__fuel__': core.FUEL,
     'open': VFS.open,
+    'range': sh_range,
+    'min': sh_min,
+    'max': sh_max,
+    'abs': sh_abs,
 }
